@@ -711,6 +711,9 @@ class ServiceType(CompositeType):
     def bit_length_set(self) -> BitLengthSet:
         raise TypeError("Service types are not directly serializable. Use either request or response.")
 
+    def _check_aggregation(self, aggregate: "SerializableType") -> typing.Optional[AggregationFailure]:
+        return AggregationFailure(self, aggregate, "Service types are not serializable and cannot be nested")
+
     @property
     def request_type(self) -> CompositeType:
         assert self._request_type.has_parent_service
